@@ -8,7 +8,7 @@ From BS Require Import Model.Base Model.Regex Model.Num Model.ExprParser Model.S
   Proofs.ExprFuel Proofs.C10wsFull Proofs.RegexShiftG Proofs.C10wsIndent2 Proofs.C10wsReturn
   Proofs.C10tokLex Proofs.C10tokSpaced Proofs.RegexTrail Proofs.C10tokTrail Proofs.RegexTrail2
   Proofs.RegexTrail3 Proofs.C10stmtTrail Proofs.C10parseNoeq Proofs.C10classifyTrail Proofs.C10stmtGaps Proofs.C10stmtGaps2 Proofs.C10stmtGaps3
-  Proofs.C10stmtGaps4 Proofs.C10stmtGaps5 Proofs.C10stmtGaps6 Proofs.C02str Proofs.C10stmtGaps7 Proofs.C10stmtGaps8 Proofs.C10stmtGaps9.
+  Proofs.C10stmtGaps4 Proofs.C10stmtGaps5 Proofs.C10stmtGaps6 Proofs.C02str Proofs.C10stmtGaps7 Proofs.C10stmtGaps8 Proofs.C10stmtGaps9 Proofs.C10labelKw.
 
 (* ---- LF versus CRLF: both texts have the same lines ---- *)
 Theorem C10_crlf : forall lines, lines <> [] -> Forall no_lf lines -> Forall (fun l => ends_cr l = false) lines ->
@@ -501,6 +501,57 @@ Example C10_ex_ws_label_keywords :
   Lower.classify 1 (U "for :") = ROk (KLabel (U "for")) /\ Lower.classify 1 (U "function :") = ROk (KLabel (U "function")) /\
   (exists e, Lower.classify 1 (U "if  :") = RErr e).
 Proof. exact label_kw_examples. Qed.
+
+(* ---- round 8 (Proofs/C10labelKw.v): the label lines named  if / elif / while  (kw_names), which C10_ws_label_pieces leaves
+   out:  w1 KW w2 : w3,  all runs white (any white characters, LF included).  The keyword regex `^\s*KW\s+(.+)\s*:\s*$` is tried
+   before the label regex and matches exactly when w2 = a x <LF>* with a non-empty and x not LF (`\s+` = a, `(.+)` = x):
+     LABEL  iff  every character of w2 behind its first is LF   (all_lf (tl w2) = true);
+     for an LF-free run (every line parse_script produces): iff |w2| <= 1;
+     otherwise the line is the keyword statement whose expression text is the single white character x = the LAST non-LF
+     character of w2, which never parses: if / while -> RErr (Syntax error, column |w1| + |KW| + |a| + 1), elif ->
+     ROk (KElif (RErr ...)) (kw_stmt; the elif error is delayed as in parser.py).
+   (The round-7 note "label iff the run has at most one non-LF character" was imprecise: `if<LF> :` has one and is an if
+   statement; the position matters, not the count.) ---- *)
+Theorem C10_ws_label_keyword_names : forall n kw w1 w2 w3, In kw kw_names -> white w1 -> white w2 -> white w3 ->
+  (all_lf (tl w2) = true -> Lower.classify n (w1 ++ kw ++ w2 ++ U ":" ++ w3) = ROk (KLabel kw)) /\
+  (all_lf (tl w2) = false ->
+     exists a x lfs, w2 = a ++ x :: lfs /\ a <> [] /\ x <> 10%N /\ all_lf lfs = true /\
+       Lower.classify n (w1 ++ kw ++ w2 ++ U ":" ++ w3)
+       = kw_stmt kw (err (U "Syntax error") (w1 ++ kw ++ w2 ++ U ":" ++ w3) (length w1 + length kw + length a + 1) n)).
+Proof. exact classify_label_kw. Qed.
+Print Assumptions C10_ws_label_keyword_names.
+
+Theorem C10_ws_label_keyword_names_iff : forall n kw w1 w2 w3, In kw kw_names -> white w1 -> white w2 -> white w3 ->
+  (Lower.classify n (w1 ++ kw ++ w2 ++ U ":" ++ w3) = ROk (KLabel kw) <-> all_lf (tl w2) = true).
+Proof. exact classify_label_kw_iff. Qed.
+Print Assumptions C10_ws_label_keyword_names_iff.
+
+Theorem C10_ws_label_keyword_names_nolf : forall n kw w1 w2 w3, In kw kw_names -> white w1 -> white w2 -> white w3 -> nolf w2 ->
+  (Lower.classify n (w1 ++ kw ++ w2 ++ U ":" ++ w3) = ROk (KLabel kw) <-> length w2 <= 1).
+Proof. exact classify_label_kw_nolf. Qed.
+Print Assumptions C10_ws_label_keyword_names_nolf.
+
+(* the statement side by its pieces *)
+Theorem C10_ws_keyword_white_expression_pieces : forall n w1 a x lfs w3, white w1 -> white a -> a <> [] -> is_sp x = true ->
+  x <> 10%N -> all_lf lfs = true -> white w3 -> forall kw, In kw kw_names ->
+  Lower.classify n (w1 ++ kw ++ (a ++ x :: lfs) ++ U ":" ++ w3)
+  = kw_stmt kw (err (U "Syntax error") (w1 ++ kw ++ (a ++ x :: lfs) ++ U ":" ++ w3) (length w1 + length kw + length a + 1) n).
+Proof. exact classify_kw_white. Qed.
+Print Assumptions C10_ws_keyword_white_expression_pieces.
+
+Example C10_ex_ws_label_keyword_names :
+  kw_names = [U "if"; U "elif"; U "while"] /\
+  (forall e, kw_stmt (U "if") e = RErr e /\ kw_stmt (U "elif") e = ROk (KElif (RErr e)) /\ kw_stmt (U "while") e = RErr e) /\
+  Lower.classify 7 (U "if :") = ROk (KLabel (U "if")) /\ Lower.classify 7 (U " elif\000009: ") = ROk (KLabel (U "elif")) /\
+  Lower.classify 7 (U "while \00000a\00000a:") = ROk (KLabel (U "while")) /\
+  Lower.classify 7 (U " if  :") = RErr (err (U "Syntax error") (U " if  :") 5 7) /\
+  Lower.classify 7 (U "elif \000009\00000a: ") = ROk (KElif (RErr (err (U "Syntax error") (U "elif \000009\00000a: ") 6 7))) /\
+  Lower.classify 7 (U "while\00000a :") = RErr (err (U "Syntax error") (U "while\00000a :") 7 7) /\
+  all_lf (tl (U " \00000a\00000a")) = true /\ all_lf (tl (U "\00000a ")) = false.
+Proof.
+  split; [reflexivity|]. split; [intros e; repeat split; reflexivity|].
+  destruct label_kw_names_examples as (A & B & C & D & E & F & G & H). repeat split; assumption.
+Qed.
 
 (* ---- round 7 (Proofs/C10stmtGaps7.v): the quoted include  w1 include w2 'body' w4  ->  KInclude (un-escaped body) false,
    for all white runs (w2 non-empty) and every body whose quotes are all escaped (quotes_escaped: the greedy reading
